@@ -34,9 +34,18 @@ TestsClause(inst, ts, i) ==
   ELSE LET cl == TestClause(inst, ts[i]) IN
        IF cl # "ok" THEN cl ELSE TestsClause(inst, ts, i + 1)
 
+\* texts of the wrong LENGTH: the text of a feasible packing with something appended (a row, a single number, the
+\* whole text once more) or cut off does not have n_items * 6 numbers and must be refused by from_str.
+\* texts: << [count (numbers in the text), accepted (0/1)] >>  (optional)
+TextsClause(inst, c) ==
+  IF "texts" \notin DOMAIN c THEN "ok"
+  ELSE IF \E k \in 1..Len(c.texts) : c.texts[k].count # 6 * NItems(inst) /\ c.texts[k].accepted = 1
+       THEN "from_str-accepts-text-of-wrong-length"
+  ELSE "ok"
 Verdict(c) ==
   LET inst == InstOf(c) IN
-  IF ~ValidInstance(inst) THEN "driver-bad-instance" ELSE TestsClause(inst, c.tests, 1)
+  IF ~ValidInstance(inst) THEN "driver-bad-instance"
+  ELSE LET cl == TestsClause(inst, c.tests, 1) IN IF cl # "ok" THEN cl ELSE TextsClause(inst, c)
 
 Init == tid = 0
 Next == /\ tid < NCases /\ tid' = tid + 1
